@@ -508,6 +508,55 @@ Proof.
   apply Forall_forall. intros r Hin. rewrite forallb_forall in H2. apply Nat.leb_le. apply H2. exact Hin.
 Qed.
 
+Lemma strip_prefix_sound : forall w got rest, strip_prefix w got = Some rest -> got = w ++ rest.
+Proof.
+  induction w as [|x w IH]; intros got rest H; cbn [strip_prefix] in H.
+  - inversion H; reflexivity.
+  - destruct got as [|y got]; [discriminate|]. destruct (N.eqb x y) eqn:E; [|discriminate].
+    apply N.eqb_eq in E. subst y. apply IH in H. subst got. reflexivity.
+Qed.
+
+Lemma pick_sound : forall (f : list bytes -> bytes -> bool) post pre got,
+  pick f pre post got = true ->
+  exists w rest post1 post2, post = post1 ++ w :: post2 /\ got = w ++ rest /\
+                             f (rev_append (rev_append post1 pre) post2) rest = true.
+Proof.
+  intros f. induction post as [|w post IH]; intros pre got H; cbn [pick] in H; [discriminate|].
+  apply orb_prop in H. destruct H as [H|H].
+  - destruct (strip_prefix w got) as [rest|] eqn:E; [|discriminate].
+    exists w, rest, [], post. cbn [app rev_append]. repeat split; try assumption.
+    apply strip_prefix_sound; exact E.
+  - apply IH in H. destruct H as [w' [rest [p1 [p2 [Hp [Hg Hf]]]]]].
+    exists w', rest, (w :: p1), p2. cbn [app rev_append]. subst post. repeat split; assumption.
+Qed.
+
+Lemma perm_concat_sound : forall fuel ws got, perm_concat fuel ws got = true ->
+  exists ws', Permutation ws' ws /\ got = concat ws'.
+Proof.
+  induction fuel as [|f IH]; intros ws got H.
+  - destruct ws; cbn [perm_concat] in H; [|discriminate].
+    exists []. split; [constructor|]. destruct got; [reflexivity | discriminate].
+  - destruct ws as [|w0 ws0] eqn:Ews.
+    + cbn [perm_concat] in H. exists []. split; [constructor|]. destruct got; [reflexivity | discriminate].
+    + cbn [perm_concat] in H. rewrite <- Ews in H. apply pick_sound in H.
+      destruct H as [w [rest [p1 [p2 [Hp [Hg Hf]]]]]]. cbn [rev_append] in Hf.
+      apply IH in Hf. destruct Hf as [ws' [Hperm Hrest]].
+      exists (w :: ws'). split.
+      * rewrite <- Ews, Hp. eapply perm_trans; [apply perm_skip; exact Hperm|].
+        rewrite !rev_append_rev, app_nil_r, rev_involutive. apply Permutation_middle.
+      * cbn [concat]. subst got rest. reflexivity.
+Qed.
+
+Lemma validate_stream_unordered_sound : forall fixed writes reads,
+  validate_stream_unordered fixed writes reads = true ->
+  (exists ws', Permutation ws' writes /\ concat (map snd reads) = concat ws') /\
+  (fixed = true -> Forall (fun r => length (snd r) <= fst r) reads).
+Proof.
+  intros fixed writes reads H. unfold validate_stream_unordered in H. apply andb_prop in H. destruct H as [H1 H2].
+  split; [eapply perm_concat_sound; exact H1|]. intros Hf. subst fixed. cbn in H2.
+  apply Forall_forall. intros r Hin. rewrite forallb_forall in H2. apply Nat.leb_le. apply H2. exact Hin.
+Qed.
+
 Lemma remove_one_perm : forall d l l', remove_one d l = Some l' -> Permutation l (d :: l').
 Proof.
   intros d. induction l as [|x t IH]; intros l' H; [discriminate|]. cbn [remove_one] in H.
